@@ -30,6 +30,20 @@ Fixpoint edits_ok (k : nat) (w : list Z) (lo : nat) (es : list edit) : Prop :=
                  /\ edits_ok k w (epos e + 3 * k + 2) rest
   end.
 
+(* The TARGET STATEMENT repair_multi is proved at the end of this file, exactly as given.  Outline:
+   Part A  rewrites w / apply_edits w es in block form  w = H ++ B1_1 ++ A_1 ++ B1_2 ++ A_2 ++ ...,
+           s = H ++ B2_1 ++ A_1 ++ B2_2 ++ A_2 ++ ...  (edits_blocks), every (B1_i, B2_i) being a substitution, an
+           insertion or a deletion (ekind), |H| >= k, |A_i| >= 3k+1 except the last one, which has |A_m| >= 2k (bok);
+   Part B  the record of detections (chunk, marker, restoring fragment, split after it) and membership in recombine;
+   Part C  scan_blocks: scan_loop started in sync with w (state v with okw v (remaining part of w)) processes the
+           blocks one by one; each block gives no detection (the scan re-synchronises, stt_forget) or exactly one
+           detection whose fragment set contains the restoring fragment (good_block: restore_rec + fragments_of_spec);
+           if every block is detected, the splits and restoring fragments concatenate to w;
+           multi_gen assembles repair_dna (fallback path: detected = 0 < number of edits; product path: recombine_in,
+           filter_checked_in, sort_dedup_sorted);
+   Part D  the target statement.  The heap hypothesis is not needed for the statement as written: when the
+           product is empty or exceeds the heap limit, repair_dna reports 0 detections. *)
+
 (* ========================================================================================== *)
 (* Part A: block form of a multi-edit                                                          *)
 (*   w = H ++ B1_1 ++ A_1 ++ B1_2 ++ A_2 ++ ...      s = H ++ B2_1 ++ A_1 ++ B2_2 ++ A_2 ++ ...  *)
@@ -150,7 +164,7 @@ Proof.
 Qed.
 
 (* ========================================================================================== *)
-(* Part B: detections, recombination and the candidate count                                   *)
+(* Part B: detections and recombination                                                        *)
 (* ========================================================================================== *)
 Record det := { d_ch : list Z; d_mk : list Z; d_f : list Z; d_x : list Z }.
 
@@ -164,22 +178,6 @@ Proof.
   - cbn [map recombine]. apply in_flat_map. exists (joinD (d_x t) D). split; [apply IH; exact HF'|].
     apply in_map_iff. exists (d_f t). split; [|exact Hin].
     unfold joinD. cbn [map concat]. rewrite <- !app_assoc. reflexivity.
-Qed.
-
-Lemma count_bound : forall (fr : list (list (list Z))) B a, 0 < a -> 1 <= B ->
-  Forall (fun fs => 1 <= Z.of_nat (length fs) <= B) fr ->
-  a <= fold_left (fun a f => a * Z.of_nat (length f)) fr a <= a * B ^ Z.of_nat (length fr).
-Proof.
-  induction fr as [|fs fr IH]; intros B a Ha HB HF; cbn [fold_left length].
-  - change (Z.of_nat 0) with 0. rewrite Z.pow_0_r. lia.
-  - inversion HF as [|? ? H1 H2]; subst. rewrite Nat2Z.inj_succ, Z.pow_succ_r by lia.
-    assert (Ha' : 0 < a * Z.of_nat (length fs)) by nia.
-    specialize (IH B _ Ha' HB H2).
-    assert (HP : 0 <= B ^ Z.of_nat (length fr)) by (apply Z.pow_nonneg; lia).
-    split; [nia|].
-    eapply Z.le_trans; [apply IH|].
-    rewrite <- Z.mul_assoc. apply Z.mul_le_mono_nonneg_l; [lia|].
-    apply Z.mul_le_mono_nonneg_r; lia.
 Qed.
 
 (* ========================================================================================== *)
@@ -335,13 +333,272 @@ Proof.
   replace (Z.of_nat k - (0 + Z.of_nat r) - 1) with (Z.of_nat k - Z.of_nat r - 1) by lia. exact E2.
 Qed.
 
+Lemma scan_blocks : forall r H P v iq cur sp ch mk d vis fuel s,
+  s = P ++ H ++ stl r -> acgt s -> vin k X v -> okw k X v (H ++ wtl r) -> bok k r ->
+  (r <> [] -> (k <= length H)%nat) -> length iq = length s -> (length (H ++ stl r) <= fuel)%nat ->
+  exists x0 D vis',
+    scan_loop fuel s acc (Z.of_nat k) (Z.of_nat (length P)) v iq cur
+      {| sc_splits := sp; sc_chunks := ch; sc_markers := mk; sc_detected := d; sc_visited := vis |} =
+    Ok {| sc_splits := rev (x0 :: map d_x D) ++ sp; sc_chunks := ch ++ map d_ch D; sc_markers := mk ++ map d_mk D;
+          sc_detected := d + Z.of_nat (length D); sc_visited := vis' |}
+    /\ (length D <= length r)%nat
+    /\ (length D = length r -> Forall (good s) D /\ joinD x0 D = cur ++ H ++ wtl r).
+Proof.
+  induction r as [|[[B1 B2] A] r IH]; intros H P v iq cur sp ch mk d vis fuel s Es Has Hv Hw Hbok HkH Hiq Hfuel.
+  - cbn [stl wtl] in *. rewrite app_nil_r in *.
+    exists (cur ++ H), [], (vis + Z.of_nat (length H)).
+    assert (Hsk : firstn (length H) (skipn (length P) s) = H).
+    { rewrite Es, m_skipn_pre. apply firstn_all. }
+    split; [|split; [cbn [length]; lia|]].
+    + replace fuel with (length H + (fuel - length H))%nat by lia.
+      rewrite (scan_run k X Hk s (Z.of_nat k) (length H));
+        [|rewrite Es, app_length; lia|exact Hv|rewrite Hsk; exact Hw].
+      rewrite Hsk. rewrite scan_loop_done by (rewrite Es, app_length; lia).
+      cbn [sc_splits sc_chunks sc_markers sc_detected sc_visited map rev app length].
+      rewrite !app_nil_r. change (Z.of_nat 0) with 0. rewrite Z.add_0_r. reflexivity.
+    + intros _. split; [constructor|]. unfold joinD. cbn [map concat]. rewrite app_nil_r. reflexivity.
+  - cbn [stl wtl bok] in *. destruct Hbok as (Hek & HA & HA3 & Hbok).
+    specialize (HkH ltac:(discriminate)).
+    destruct (ekind_B2 B1 B2 Hek) as (HB2 & HlB2 & HlB1).
+    set (S1 := H ++ B2 ++ A).
+    assert (Es' : s = P ++ S1 ++ stl r) by (rewrite Es; unfold S1; rewrite <- !app_assoc; reflexivity).
+    assert (HlS1 : length S1 = (length H + length B2 + length A)%nat) by (unfold S1; rewrite !app_length; lia).
+    assert (Hls : length s = (length P + length S1 + length (stl r))%nat) by (rewrite Es', !app_length; lia).
+    assert (HaS1 : acgt S1).
+    { rewrite Es' in Has. unfold acgt in *. apply Forall_app in Has. destruct Has as [_ Has].
+      apply Forall_app in Has. apply Has. }
+    assert (Hsplit : forall q, okw k X v (H ++ B1 ++ firstn q A) /\
+                               okw k X (stt k v (H ++ B1 ++ firstn q A)) (skipn q A ++ wtl r)).
+    { intros q. apply okw_app. rewrite <- !app_assoc. rewrite (app_assoc (firstn q A)), firstn_skipn. exact Hw. }
+    assert (HwS : okw k X v (H ++ B1 ++ A)).
+    { destruct (Hsplit (length A)) as [Hx _]. rewrite firstn_all in Hx. exact Hx. }
+    rewrite !app_length in Hfuel.
+    destruct (r8_first_fail (fun j => X (sig k v S1 (S j))) (length H + length B2 + k))
+      as [Hall|(l' & Hl' & Hbefore & Hfail)]; cbv beta in *.
+    + (* no detection in this block: the scan re-synchronises with w *)
+      set (n1 := (length H + length B2 + k)%nat) in *.
+      set (T1 := H ++ B2 ++ firstn k A).
+      assert (ET1 : firstn n1 S1 = T1).
+      { unfold S1, T1, n1. replace (length H + length B2 + k)%nat with (length H + (length B2 + k))%nat by lia.
+        rewrite firstn_app_2. f_equal. rewrite firstn_app_2. reflexivity. }
+      assert (HlT1 : length T1 = n1).
+      { unfold T1, n1. rewrite !app_length, firstn_length_le by lia. lia. }
+      assert (Hpre : okw k X v T1).
+      { rewrite <- ET1. apply (okw_prefix k X Hk); [exact HaS1|lia|exact Hall]. }
+      assert (Hsk : firstn n1 (skipn (length P) s) = T1).
+      { rewrite Es', m_skipn_pre. rewrite m_firstn_app_le by lia. exact ET1. }
+      assert (Ev : stt k v T1 = stt k v (H ++ B1 ++ firstn k A)).
+      { unfold T1. rewrite !app_assoc. rewrite !stt_app. apply stt_forget.
+        - rewrite firstn_length_le by lia. lia.
+        - repeat apply stt_range. apply Hv.
+        - repeat apply stt_range. apply Hv. }
+      destruct (Hsplit k) as [_ Hw'].
+      destruct (IH (skipn k A) (P ++ T1) (stt k v T1) (fill k iq (length P) v T1) (cur ++ T1) sp ch mk d
+                   (vis + Z.of_nat n1) (fuel - n1)%nat s) as (x0 & D & vis' & E & HD & _).
+      * rewrite Es. unfold T1. rewrite <- !app_assoc. rewrite (app_assoc (firstn k A)), firstn_skipn. reflexivity.
+      * exact Has.
+      * apply okw_vin; assumption.
+      * rewrite Ev. exact Hw'.
+      * exact Hbok.
+      * intros Hr. specialize (HA3 Hr). rewrite skipn_length. lia.
+      * rewrite fill_length. exact Hiq.
+      * rewrite app_length, skipn_length. lia.
+      * exists x0, D, vis'. split; [|split; [cbn [length]; lia|cbn [length]; intros; lia]].
+        replace fuel with (n1 + (fuel - n1))%nat by lia.
+        rewrite (scan_run k X Hk s (Z.of_nat k) n1); [|lia|exact Hv|rewrite Hsk; exact Hpre].
+        rewrite Hsk. replace (length P + n1)%nat with (length (P ++ T1)) by (rewrite app_length; lia).
+        exact E.
+    + (* detection at l = |P| + l' *)
+      destruct (edit_window k X Hk v H B1 B2 A Hv HwS HkH l' ltac:(fold S1; lia) Hfail) as [H1 H2].
+      set (t := firstn l' S1).
+      assert (Ht : length t = l') by (unfold t; apply firstn_length_le; lia).
+      assert (Hpre : okw k X v t).
+      { unfold t. apply (okw_prefix k X Hk); [exact HaS1|lia|exact Hbefore]. }
+      assert (Hsk : firstn l' (skipn (length P) s) = t).
+      { rewrite Es', m_skipn_pre. apply m_firstn_app_le. lia. }
+      remember (length P + l')%nat as l eqn:El.
+      assert (Hu : vin k X (stt k v t)) by (apply okw_vin; assumption).
+      assert (Hnl : nth l s 0 = nth l' S1 0).
+      { rewrite El, Es', m_nth_pre_add. apply app_nth1. lia. }
+      assert (Hx : X (nx k (stt k v t) (nth l s 0)) = false).
+      { rewrite Hnl. rewrite (sig_S k Hk) in Hfail by lia. exact Hfail. }
+      remember (l' + k + 1 - length H - length B2)%nat as q eqn:Eq.
+      assert (Hq : (k <= q)%nat /\ (q + 1 <= 2 * k)%nat) by lia.
+      set (T2 := H ++ B2 ++ firstn q A).
+      assert (HlT2 : length T2 = (l' + k + 1)%nat).
+      { unfold T2. rewrite !app_length, firstn_length_le by lia. lia. }
+      set (iq1 := fill k iq (length P) v t).
+      assert (Ekm : firstn k (skipn (S l) s) = firstn k (skipn (q - k) A)).
+      { rewrite El, Es'. replace (S (length P + l')) with (length P + S l')%nat by lia.
+        rewrite m_skipn_pre_add. rewrite m_firstn_skipn_app_le by lia. unfold S1. rewrite app_assoc.
+        rewrite skipn_app. rewrite skipn_all2 by (rewrite app_length; lia). cbn [app]. rewrite app_length.
+        do 2 f_equal. lia. }
+      assert (Efq : firstn q A = firstn (q - k) A ++ firstn k (skipn (q - k) A)).
+      { rewrite <- r8_firstn_add. f_equal. lia. }
+      assert (Ev2 : kval (firstn k (skipn (S l) s)) = stt k v (H ++ B1 ++ firstn q A)).
+      { rewrite Ekm, Efq. rewrite !app_assoc. rewrite stt_app. symmetry. apply stt_kval.
+        - apply firstn_length_le. rewrite skipn_length. lia.
+        - apply stt_range. apply Hv. }
+      destruct (Hsplit q) as [Hwq Hw'].
+      assert (Hv2 : vin k X (stt k v (H ++ B1 ++ firstn q A))) by (apply okw_vin; assumption).
+      assert (Hcur2 : nth (l + k) s 0 = nth (q - 1) A 0).
+      { rewrite El, Es'. replace (length P + l' + k)%nat with (length P + (l' + k))%nat by lia.
+        rewrite m_nth_pre_add. rewrite app_nth1 by lia. unfold S1. rewrite app_assoc.
+        rewrite app_nth2 by (rewrite app_length; lia). f_equal. rewrite app_length. lia. }
+      assert (Ecut : firstn (length (cur ++ t) + 1 - k) (cur ++ t) = cur ++ firstn (l' + 1 - k) H).
+      { rewrite app_length, Ht. replace (length cur + l' + 1 - k)%nat with (length cur + (l' + 1 - k))%nat by lia.
+        rewrite firstn_app_2. f_equal. unfold t. rewrite firstn_firstn, Nat.min_l by lia.
+        unfold S1. apply m_firstn_app_le. lia. }
+      destruct (IH (skipn q A) (P ++ T2) (kval (firstn k (skipn (S l) s))) iq1 [nth (l + k) s 0]
+                   (firstn (length (cur ++ t) + 1 - k) (cur ++ t) :: sp)
+                   (ch ++ [firstn (2 * k - 1) (skipn (l + 1 - k) s)])
+                   (mk ++ [firstn k (skipn (l - k) iq1)]) (d + 1) (vis + Z.of_nat l') (fuel - l' - 1)%nat s)
+        as (x0 & D & vis' & E & HD & Hfull).
+      * rewrite Es. unfold T2. rewrite <- !app_assoc. rewrite (app_assoc (firstn q A)), firstn_skipn. reflexivity.
+      * exact Has.
+      * rewrite Ev2. exact Hv2.
+      * rewrite Ev2. exact Hw'.
+      * exact Hbok.
+      * intros Hr. specialize (HA3 Hr). rewrite skipn_length. lia.
+      * unfold iq1. rewrite fill_length. exact Hiq.
+      * rewrite app_length, skipn_length. lia.
+      * exists (firstn (length (cur ++ t) + 1 - k) (cur ++ t)),
+               ({| d_ch := firstn (2 * k - 1) (skipn (l + 1 - k) s);
+                   d_mk := firstn k (skipn (l - k) iq1);
+                   d_f := skipn (l' + 1 - k) H ++ B1 ++ firstn (k + (l' - length H) - length B2) A;
+                   d_x := x0 |} :: D), vis'.
+        split; [|split].
+        -- replace fuel with (l' + S (fuel - l' - 1))%nat by lia.
+           rewrite (scan_run k X Hk s (Z.of_nat k) l'); [|lia|exact Hv|rewrite Hsk; exact Hpre].
+           rewrite Hsk. rewrite <- El. fold iq1.
+           rewrite (scan_detect2 s (fuel - l' - 1) l (stt k v t) iq1 (cur ++ t) sp ch mk d (vis + Z.of_nat l') Has
+                      ltac:(lia) ltac:(lia) Hu Hx ltac:(rewrite app_length; lia)
+                      ltac:(unfold iq1; rewrite fill_length; exact Hiq)).
+           replace (l + k + 1)%nat with (length (P ++ T2)) by (rewrite app_length; lia).
+           rewrite E. cbn [map d_x d_ch d_mk rev length]. rewrite <- !app_assoc. cbn [app].
+           rewrite Nat2Z.inj_succ. replace (d + 1 + Z.of_nat (length D)) with (d + Z.succ (Z.of_nat (length D))) by lia.
+           reflexivity.
+        -- cbn [length]. lia.
+        -- cbn [length]. intros HlD. assert (HlD' : length D = length r) by lia.
+           destruct (Hfull HlD') as [HG HJ]. split.
+           ++ constructor; [|exact HG].
+              apply (good_block s P v H B1 B2 A (stl r) l' l iq x0 Es' Has Hv HwS Hek HkH HA H1 H2 Hiq El).
+           ++ unfold joinD in *. cbn [map concat d_f d_x]. rewrite <- (app_assoc _ x0). rewrite HJ.
+              rewrite Ecut, Hcur2.
+              replace (k + (l' - length H) - length B2)%nat with (q - 1)%nat by lia.
+              rewrite <- !app_assoc. cbn [app]. f_equal.
+              rewrite (app_assoc (firstn (l' + 1 - k) H)), firstn_skipn. do 2 f_equal.
+              transitivity ((firstn (q - 1) A ++ skipn (q - 1) A) ++ wtl r); [|rewrite firstn_skipn; reflexivity].
+              rewrite (skipn_nth A (q - 1)) by lia. replace (S (q - 1)) with q by lia.
+              rewrite <- app_assoc. reflexivity.
+Qed.
+
+Lemma all_fragments_good : forall s D vis fr n, Forall (good s) D ->
+  all_fragments (map d_ch D) (map d_mk D) acc (Z.of_nat k) true s vis = Ok (fr, n) ->
+  Forall2 (fun t fs => In (d_f t) fs) D fr.
+Proof.
+  intros s. induction D as [|t D IH]; intros vis fr n HG E; cbn [map all_fragments] in E.
+  - injection E as <- <-. constructor.
+  - inversion HG as [|? ? Ht HD]; subst.
+    destruct (fragments_of (d_ch t) acc (Z.of_nat k) true s (rev (d_mk t)) 0 [] vis) as [[fs n1]|e|] eqn:E1;
+      cbn [bind] in E; try discriminate.
+    cbn [fst snd] in E.
+    destruct (all_fragments (map d_ch D) (map d_mk D) acc (Z.of_nat k) true s n1) as [[fr' n2]|e|] eqn:E2;
+      cbn [bind] in E; try discriminate.
+    cbn [fst snd] in E. injection E as <- <-.
+    constructor; [apply (Ht _ _ _ E1)|apply (IH _ _ _ HD E2)].
+Qed.
+
+Lemma acgt_stl : forall r, bok k r -> acgt (wtl r) -> acgt (stl r).
+Proof.
+  induction r as [|[[B1 B2] A] r IH]; intros Hb Ha; [constructor|].
+  cbn [bok wtl stl] in *. destruct Hb as (Hek & _ & _ & Hb). unfold acgt in *.
+  apply Forall_app in Ha. destruct Ha as [_ Ha]. apply Forall_app in Ha. destruct Ha as [HaA Ha].
+  apply Forall_app. split; [apply (ekind_B2 B1 B2 Hek)|]. apply Forall_app. split; [exact HaA|].
+  apply IH; assumption.
+Qed.
+
+Theorem multi_gen : forall v0 H r vt heap, 0 <= v0 < pow4 k -> is_walk acc v0 (H ++ wtl r) -> bok k r ->
+  (r <> [] -> (k <= length H)%nat) -> check_of (H ++ wtl r) vt ->
+  exists cands st, repair_dna (H ++ stl r) acc v0 (Z.of_nat k) vt true heap = Ok (cands, st)
+     /\ 0 <= detected st <= Z.of_nat (length r)
+     /\ (detected st = Z.of_nat (length r) -> In (H ++ wtl r) cands).
+Proof.
+  intros v0 H r vt heap Hv0r Hwalk Hbok HkH Hchk.
+  assert (Hrange : in_range acc v0) by (unfold in_range; rewrite acc_nrows; exact Hv0r).
+  destruct r as [|b r'] eqn:Er.
+  - (* no edit: the strand is the walk *)
+    cbn [wtl stl length] in *.
+    destruct (repair_clean (H ++ []) acc v0 (Z.of_nat k) vt true heap (acc_shaped k X) Hrange Hwalk)
+      as (flag & count & visited & E).
+    rewrite E. eexists. eexists. split; [reflexivity|]. cbn [detected]. split; [lia|]. intros _.
+    rewrite (check_matches_okb vt (H ++ []) true (check_of_matches _ _ Hchk)). left. reflexivity.
+  - rewrite <- Er in *. assert (Hne : r <> []) by (rewrite Er; discriminate). clear Er b r'.
+    specialize (HkH Hne).
+    assert (Hv0 : vin k X v0).
+    { apply (is_walk_start_len k X Hk v0 (H ++ wtl r) Hv0r); [rewrite app_length; lia|exact Hwalk]. }
+    pose proof (proj1 (is_walk_okw k X Hk _ _ Hv0) Hwalk) as Hw.
+    set (s := H ++ stl r).
+    assert (Has : acgt s).
+    { pose proof (okw_acgt k X _ _ Hw) as Ha. unfold s, acgt in *. apply Forall_app in Ha. destruct Ha as [Ha1 Ha2].
+      apply Forall_app. split; [exact Ha1|]. apply acgt_stl; assumption. }
+    assert (Hks : (k <= length s)%nat) by (unfold s; rewrite app_length; lia).
+    assert (Hiq : Forall (vok acc) (repeat (-1) (length s))).
+    { apply Forall_forall. intros x Hx. apply repeat_spec in Hx. subst x. unfold vok. pose proof (acc_pos k X). lia. }
+    destruct (scan_blocks r H [] v0 (repeat (-1) (length s)) [] [] [] [] 0 0 (S (length s)) s eq_refl Has Hv0 Hw Hbok
+                ltac:(intros _; exact HkH) (repeat_length _ _) ltac:(fold s; lia)) as (x0 & D & vis' & E & HD & Hfull).
+    cbn [length app] in E. change (Z.of_nat 0) with 0 in E.
+    assert (H0 : scan_ok acc k (Z.min 0 (Z.of_nat (length s)))
+                   {| sc_splits := []; sc_chunks := []; sc_markers := []; sc_detected := 0; sc_visited := 0 |}).
+    { unfold scan_ok. cbn [sc_splits sc_chunks sc_markers sc_detected sc_visited length].
+      refine (conj _ (conj _ (conj _ (conj _ _)))); [constructor|constructor|lia|reflexivity|lia]. }
+    destruct (scan_total acc k s (acc_shaped k X) Hk (acc_nrows k X) Has Hks (S (length s)) 0 v0 (repeat (-1) (length s)) [] _
+                ltac:(lia) ltac:(lia) Hrange (repeat_length _ _) Hiq ltac:(constructor) H0) as (st & E2 & Hst).
+    rewrite E in E2. injection E2 as <-.
+    destruct Hst as (S1 & S2 & _).
+    cbn [sc_splits sc_chunks sc_markers] in S1, S2. rewrite app_nil_r in S1.
+    unfold repair_dna. cbv zeta. fold s. rewrite E.
+    cbn [bind sc_splits sc_chunks sc_markers sc_detected sc_visited].
+    destruct (all_fragments_total acc (acc_shaped k X) (acc_pos k X) (Z.of_nat k) true s _ _ vis' S2)
+      as (fr & n & Efr & _ & Hfr).
+    rewrite Efr. cbn [bind fst snd]. rewrite app_nil_r, rev_involutive.
+    destruct (_ || _).
+    + (* fallback path: reports 0 detections *)
+      assert (Hlr : 0 < Z.of_nat (length r)) by (destruct r; [exfalso; apply Hne; reflexivity|cbn [length]; lia]).
+      destruct vt as [chk|].
+      * rewrite (check_matches_total (Some chk) s Has). cbn [bind].
+        destruct (check_okb (Some chk) s); eexists; eexists; (split; [reflexivity|]); cbn [detected];
+          (split; [lia|intros Hd; lia]).
+      * eexists; eexists; (split; [reflexivity|]); cbn [detected]; (split; [lia|intros Hd; lia]).
+    + destruct (filter_checked_total vt (recombine (x0 :: map d_x D) fr)) as (res & E3).
+      { apply recombine_acgt; [|exact Hfr]. apply Forall_rev in S1. rewrite rev_app_distr, rev_involutive in S1. exact S1. }
+      rewrite E3. cbn [bind]. eexists. eexists. split; [reflexivity|]. cbn [detected]. split; [lia|].
+      intros Hd. assert (HlD : length D = length r) by lia.
+      destruct (Hfull HlD) as [HG HJ]. cbn [app] in HJ, Efr.
+      apply (proj2 (sort_dedup_sorted (fst res))).
+      apply (filter_checked_in vt _ res _ E3); [|apply check_of_matches; exact Hchk].
+      rewrite <- HJ. apply recombine_in. apply (all_fragments_good s D vis' fr n HG Efr).
+Qed.
+
 End Multi.
 
-(* TARGET STATEMENT (to be proved, do not change the statement):
-
+(* ========================================================================================== *)
+(* Part D: the target statement                                                                *)
+(* ========================================================================================== *)
 Theorem repair_multi : forall k acc v0 w es vt heap, generated k acc -> 0 <= v0 < pow4 k -> is_walk acc v0 w ->
   edits_ok k w k es -> check_of w vt -> (8 * Z.of_nat k) ^ Z.of_nat (length es) <= heap ->
   exists cands st, repair_dna (apply_edits w es) acc v0 (Z.of_nat k) vt true heap = Ok (cands, st)
      /\ 0 <= detected st <= Z.of_nat (length es)
      /\ (detected st = Z.of_nat (length es) -> In w cands).
-*)
+Proof.
+  intros k acc v0 w es vt heap (Hk & Hleg & X & ->) Hv Hwalk Hok Hchk _.
+  destruct (edits_blocks k es w k Hok) as (H & r & E1 & E2 & E3 & E4 & E5).
+  assert (Ew : (firstn k w ++ H) ++ wtl r = w).
+  { rewrite <- app_assoc, <- E1. apply firstn_skipn. }
+  pose proof (multi_gen k X Hk v0 (firstn k w ++ H) r vt heap Hv) as M.
+  rewrite Ew, E3 in M. rewrite E2, app_assoc. apply M; try assumption.
+  intros Hr. assert (He : es <> []) by (intros ->; destruct r; [apply Hr; reflexivity|discriminate]).
+  specialize (E5 He). rewrite app_length, firstn_length_le by lia. lia.
+Qed.
+
+Print Assumptions repair_multi.
